@@ -247,11 +247,13 @@ theorem actionPopVlan_rt (ln : Nat) (p : V) (hln : ln < 65536) :
     simp only [h41, Res.bind_ok, h42, tryE, Res.pure_eq]
     rfl
 
-/-- ActionDecNwTtl -/
-theorem actionDecNwTtl_rt (ln : Nat) (p : V) (hln : ln < 65536) :
-    let v := V.obj "ActionDecNwTtl" [ActionHeader.mk Gen.openflow13.ActionType_DecNwTtl ln, p]
-    let v' := V.obj "ActionDecNwTtl" [ActionHeader.mk Gen.openflow13.ActionType_DecNwTtl ln, .bytes []]
-    let bs := be16 (n16 Gen.openflow13.ActionType_DecNwTtl) ++ be16 (n16 ln) ++ zeros 4
+/-- the 8-byte header-plus-padding actions, decoded into `new(ActionDecNwTtl)`: dec-nw-ttl 24 and the header-only actions
+    copy-ttl-out 11, copy-ttl-in 12, dec-mpls-ttl 16, pop-pbb 27 -/
+theorem actionHdrPad_rt (ty ln : Nat) (p : V) (hty : ty < 65536)
+    (hlook : actionTypeTable.lookup ty = some ActionDecNwTtl.zero) (hln : ln < 65536) :
+    let v := V.obj "ActionDecNwTtl" [ActionHeader.mk ty ln, p]
+    let v' := V.obj "ActionDecNwTtl" [ActionHeader.mk ty ln, .bytes []]
+    let bs := be16 (n16 ty) ++ be16 (n16 ln) ++ zeros 4
     Action.marshalM v = .ok (bs, v) ∧ Action.lenM v = .ok (8, v) ∧
     ∀ (data : Slice) (tail : Bytes) (k : Nat), data.WF → data.bytes = bs ++ tail → DecodeAction (k + 1) data = .ok v' := by
   intro v v' bs
@@ -259,65 +261,80 @@ theorem actionDecNwTtl_rt (ln : Nat) (p : V) (hln : ln < 65536) :
   · rw [action_marshal_leaf v (by simp [v, V.kind])]
     rfl
   · intro data tail k hd hb
-    rw [decodeAction_of data hd Gen.openflow13.ActionType_DecNwTtl (by decide) (be16 (n16 ln) ++ (zeros 4 ++ tail))
-      (by rw [hb]; simp only [bs, List.append_assoc]) ActionDecNwTtl.zero rfl (by decide)]
+    rw [decodeAction_of data hd ty hty (be16 (n16 ln) ++ (zeros 4 ++ tail))
+      (by rw [hb]; simp only [bs, List.append_assoc]) ActionDecNwTtl.zero hlook (by decide)]
     simp only [Action.unmarshalLeaf, ActionDecNwTtl.zero, V.kind, ActionDecNwTtl.unmarshal]
-    obtain ⟨d4, h41, h42⟩ := actionHeader_upto4 ActionHeader.zero data hd Gen.openflow13.ActionType_DecNwTtl ln
-      (by decide) hln (zeros 4 ++ tail) (by rw [hb]; simp only [bs, List.append_assoc])
+    obtain ⟨d4, h41, h42⟩ := actionHeader_upto4 ActionHeader.zero data hd ty ln
+      hty hln (zeros 4 ++ tail) (by rw [hb]; simp only [bs, List.append_assoc])
     simp only [h41, Res.bind_ok, h42, Res.pure_eq]
     rfl
 
-/-- the header-only actions (copy-ttl-out, copy-ttl-in, dec-mpls-ttl, pop-pbb) -/
-theorem actionHeader_rt (ty ln : Nat) (hty : ty < 65536) (hlook : actionTypeTable.lookup ty = some ActionHeader.zero)
-    (hln : ln < 65536) :
-    let v := ActionHeader.mk ty ln
-    let bs := be16 (n16 ty) ++ be16 (n16 ln)
-    Action.marshalM v = .ok (bs, v) ∧ Action.lenM v = .ok (4, v) ∧
-    ∀ (data : Slice) (tail : Bytes) (k : Nat), data.WF → data.bytes = bs ++ tail → DecodeAction (k + 1) data = .ok v := by
-  intro v bs
-  refine ⟨?_, rfl, ?_⟩
-  · rw [action_marshal_leaf v (by simp [v, V.kind, ActionHeader.mk])]
-    rfl
-  · intro data tail k hd hb
-    rw [decodeAction_of data hd ty hty (be16 (n16 ln) ++ tail)
-      (by rw [hb]; simp only [bs, List.append_assoc]) ActionHeader.zero hlook (by decide)]
-    simp only [Action.unmarshalLeaf, ActionHeader.zero, V.kind]
-    exact actionHeader_unmarshal _ data hd ty ln hty hln tail hb
+/-- ActionDecNwTtl -/
+theorem actionDecNwTtl_rt (ln : Nat) (p : V) (hln : ln < 65536) :
+    let v := V.obj "ActionDecNwTtl" [ActionHeader.mk Gen.openflow13.ActionType_DecNwTtl ln, p]
+    let v' := V.obj "ActionDecNwTtl" [ActionHeader.mk Gen.openflow13.ActionType_DecNwTtl ln, .bytes []]
+    let bs := be16 (n16 Gen.openflow13.ActionType_DecNwTtl) ++ be16 (n16 ln) ++ zeros 4
+    Action.marshalM v = .ok (bs, v) ∧ Action.lenM v = .ok (8, v) ∧
+    ∀ (data : Slice) (tail : Bytes) (k : Nat), data.WF → data.bytes = bs ++ tail → DecodeAction (k + 1) data = .ok v' :=
+  actionHdrPad_rt Gen.openflow13.ActionType_DecNwTtl ln p (by decide) rfl hln
 
-/-- ActionMplsTtl / ActionNwTtl encode as the 4 header bytes only: the TTL is neither written nor read, so the decoded
-    action always has TTL 0 (and the action occupies 4 bytes where OpenFlow 1.3 has 8) -/
-theorem actionMplsTtl_decode (ln ttl : Nat) (p : V) (hln : ln < 65536) :
+/-- the four header-only action types are decoded into `new(ActionDecNwTtl)` (8 bytes) -/
+theorem headerOnly_lookup (ty : Nat)
+    (hty : ty = Gen.openflow13.ActionType_CopyTtlOut ∨ ty = Gen.openflow13.ActionType_CopyTtlIn ∨
+      ty = Gen.openflow13.ActionType_DecMplsTtl ∨ ty = Gen.openflow13.ActionType_PopPbb) :
+    ty < 65536 ∧ actionTypeTable.lookup ty = some ActionDecNwTtl.zero := by
+  rcases hty with h | h | h | h <;> (rw [h]; exact ⟨by decide, rfl⟩)
+
+/-- ActionMplsTtl (set-mpls-ttl): header, the ttl byte, 3 bytes of padding; the unexported pad comes back nil -/
+theorem actionMplsTtl_rt (ln ttl : Nat) (p : V) (hln : ln < 65536) (httl : ttl < 256) :
     let v := V.obj "ActionMplsTtl" [ActionHeader.mk Gen.openflow13.ActionType_SetMplsTtl ln, .num ttl, p]
-    let v' := V.obj "ActionMplsTtl" [ActionHeader.mk Gen.openflow13.ActionType_SetMplsTtl ln, .num 0, .bytes []]
-    let bs := be16 (n16 Gen.openflow13.ActionType_SetMplsTtl) ++ be16 (n16 ln)
-    Action.marshalM v = .ok (bs, v) ∧ Action.lenM v = .ok (4, v) ∧
+    let v' := V.obj "ActionMplsTtl" [ActionHeader.mk Gen.openflow13.ActionType_SetMplsTtl ln, .num ttl, .bytes []]
+    let bs := be16 (n16 Gen.openflow13.ActionType_SetMplsTtl) ++ be16 (n16 ln) ++ [n8 ttl, 0, 0, 0]
+    Action.marshalM v = .ok (bs, v) ∧ Action.lenM v = .ok (8, v) ∧
     ∀ (data : Slice) (tail : Bytes) (k : Nat), data.WF → data.bytes = bs ++ tail → DecodeAction (k + 1) data = .ok v' := by
   intro v v' bs
   refine ⟨?_, rfl, ?_⟩
   · rw [action_marshal_leaf v (by simp [v, V.kind])]
     rfl
   · intro data tail k hd hb
-    rw [decodeAction_of data hd Gen.openflow13.ActionType_SetMplsTtl (by decide) (be16 (n16 ln) ++ tail)
+    have hlen := Slice.len_ge_of_bytes data _ _ hb
+    have hlen8 : 8 ≤ data.len := by
+      have : bs.length = 8 := rfl
+      omega
+    rw [decodeAction_of data hd Gen.openflow13.ActionType_SetMplsTtl (by decide) (be16 (n16 ln) ++ ([n8 ttl, 0, 0, 0] ++ tail))
       (by rw [hb]; simp only [bs, List.append_assoc]) ActionMplsTtl.zero rfl (by decide)]
     simp only [Action.unmarshalLeaf, ActionMplsTtl.zero, V.kind, ActionMplsTtl.unmarshal]
-    rw [actionHeader_unmarshal _ data hd Gen.openflow13.ActionType_SetMplsTtl ln (by decide) hln tail hb]
+    rw [if_neg (by omega)]
+    obtain ⟨d4, h41, h42⟩ := actionHeader_upto4 ActionHeader.zero data hd Gen.openflow13.ActionType_SetMplsTtl ln
+      (by decide) hln ([n8 ttl, 0, 0, 0] ++ tail) (by rw [hb]; simp only [bs, List.append_assoc])
+    have e4 : data.bytes[4]? = some (n8 ttl) := by rw [hb]; rfl
+    simp only [h41, Res.bind_ok, h42, Slice.byteAt_eq, e4, Res.ofOption, Res.pure_eq, u8_n8 ttl httl]
     rfl
 
-theorem actionNwTtl_decode (ln ttl : Nat) (p : V) (hln : ln < 65536) :
+/-- ActionNwTtl (set-nw-ttl): header, the ttl byte, 3 bytes of padding; the unexported pad comes back nil -/
+theorem actionNwTtl_rt (ln ttl : Nat) (p : V) (hln : ln < 65536) (httl : ttl < 256) :
     let v := V.obj "ActionNwTtl" [ActionHeader.mk Gen.openflow13.ActionType_SetNwTtl ln, .num ttl, p]
-    let v' := V.obj "ActionNwTtl" [ActionHeader.mk Gen.openflow13.ActionType_SetNwTtl ln, .num 0, .bytes []]
-    let bs := be16 (n16 Gen.openflow13.ActionType_SetNwTtl) ++ be16 (n16 ln)
-    Action.marshalM v = .ok (bs, v) ∧ Action.lenM v = .ok (4, v) ∧
+    let v' := V.obj "ActionNwTtl" [ActionHeader.mk Gen.openflow13.ActionType_SetNwTtl ln, .num ttl, .bytes []]
+    let bs := be16 (n16 Gen.openflow13.ActionType_SetNwTtl) ++ be16 (n16 ln) ++ [n8 ttl, 0, 0, 0]
+    Action.marshalM v = .ok (bs, v) ∧ Action.lenM v = .ok (8, v) ∧
     ∀ (data : Slice) (tail : Bytes) (k : Nat), data.WF → data.bytes = bs ++ tail → DecodeAction (k + 1) data = .ok v' := by
   intro v v' bs
   refine ⟨?_, rfl, ?_⟩
   · rw [action_marshal_leaf v (by simp [v, V.kind])]
     rfl
   · intro data tail k hd hb
-    rw [decodeAction_of data hd Gen.openflow13.ActionType_SetNwTtl (by decide) (be16 (n16 ln) ++ tail)
+    have hlen := Slice.len_ge_of_bytes data _ _ hb
+    have hlen8 : 8 ≤ data.len := by
+      have : bs.length = 8 := rfl
+      omega
+    rw [decodeAction_of data hd Gen.openflow13.ActionType_SetNwTtl (by decide) (be16 (n16 ln) ++ ([n8 ttl, 0, 0, 0] ++ tail))
       (by rw [hb]; simp only [bs, List.append_assoc]) ActionNwTtl.zero rfl (by decide)]
     simp only [Action.unmarshalLeaf, ActionNwTtl.zero, V.kind, ActionNwTtl.unmarshal]
-    rw [actionHeader_unmarshal _ data hd Gen.openflow13.ActionType_SetNwTtl ln (by decide) hln tail hb]
+    rw [if_neg (by omega)]
+    obtain ⟨d4, h41, h42⟩ := actionHeader_upto4 ActionHeader.zero data hd Gen.openflow13.ActionType_SetNwTtl ln
+      (by decide) hln ([n8 ttl, 0, 0, 0] ++ tail) (by rw [hb]; simp only [bs, List.append_assoc])
+    have e4 : data.bytes[4]? = some (n8 ttl) := by rw [hb]; rfl
+    simp only [h41, Res.bind_ok, h42, Slice.byteAt_eq, e4, Res.ofOption, Res.pure_eq, u8_n8 ttl httl]
     rfl
 
 
